@@ -28,6 +28,7 @@ class HarnessError(BaseException):
 
 
 _CUR = None  # the Path being executed
+PATH_START_HOOKS = []  # callables run before every path (module state of the shadow package is put back)
 
 
 def cur() -> "Path":
@@ -109,6 +110,7 @@ class Engine:
         self.logic = logic
         self.stats = Stats()
         self.max_paths = max_paths
+        self.unsupported = []
 
     # ------------------------------------------------------------------ solver facade
     def solve(self, constraints, want_model=False, timeout_ms=None):
@@ -142,13 +144,24 @@ class Engine:
             path = Path(self, prefix, work)
             _CUR = path
             res = exc = None
+            for hook in PATH_START_HOOKS:
+                hook()
             try:
                 res = fn(path)
             except PathAbort:
                 self.stats.aborted += 1
                 _CUR = None
                 continue
-            except (Unsupported, Inconclusive, HarnessError):
+            except Unsupported as u:
+                # this path reached an operation without a sound model: recorded (the check cannot return OK),
+                # but the remaining paths are still explored - a violation found elsewhere is still a violation
+                self.unsupported.append(str(u))
+                self.stats.aborted += 1
+                _CUR = None
+                if len(self.unsupported) > 200:
+                    raise
+                continue
+            except (Inconclusive, HarnessError):
                 _CUR = None
                 raise
             except Exception as e:  # an exception escaping the harness function itself
